@@ -177,16 +177,19 @@ EPOCHS = [0, 86399, 951782399, 10 ** 9, 2 ** 31 - 1, 4102444800,
           1790000000]
 TZS = [-12 * 3600, 0, 14 * 3600, 5 * 3600 + 2700]
 SIMCWDS = ["home/alice", "srv/jobs/42", "home/alice/with blank", "x"]
-# who runs the tool, where, in which language (never COLUMNS / LINES: the
-# width of argparse's help text legitimately follows the terminal)
+# who runs the tool, where, in which language, in how wide a terminal
+# (the grammar of this check never asks for a help text, the only output
+# whose layout legitimately follows the terminal)
 ENVS = [{"USER": "alice", "LOGNAME": "alice", "HOME": "/home/alice",
-         "LANG": "en_US.UTF-8", "HOSTNAME": "node1", "TMPDIR": "/tmp"},
+         "LANG": "en_US.UTF-8", "HOSTNAME": "node1", "TMPDIR": "/tmp",
+         "COLUMNS": "200", "LINES": "50"},
         {"USER": "bob", "LOGNAME": "bob", "HOME": "/srv/bob",
          "LANG": "C", "LC_ALL": "C", "HOSTNAME": "node2",
-         "TMPDIR": "/var/tmp", "NO_COLOR": "1"},
+         "TMPDIR": "/var/tmp", "NO_COLOR": "1", "COLUMNS": "45"},
         {"USER": "root", "LOGNAME": "root", "HOME": "/root",
          "LANG": "it_IT.ISO-8859-1", "HOSTNAME": "build-7",
-         "SOURCE_DATE_EPOCH": "0", "PYTHONHASHSEED": "random"},
+         "SOURCE_DATE_EPOCH": "0", "PYTHONHASHSEED": "random",
+         "COLUMNS": "72", "TERM": "dumb"},
         {}]
 
 
@@ -299,7 +302,7 @@ def execute(case, ctx):
             ("seed-not-applied" if not s1.seed_calls else "other")
         if kind == "other" and case.get("clocks"):
             d = _first_diff(o1.stdout, o2.stdout)
-            if any(c in d for c in case["simcwds"]):
+            if any("/simfs/" + c in d for c in case["simcwds"]):
                 kind = "working-directory"
             elif o1.clock_reads or o2.clock_reads:
                 kind = "clock"
@@ -369,6 +372,9 @@ def _exec_proc(case, ctx):
                "PYTHONPATH": REPO, "PYTHONHASHSEED": hs,
                "PYTHONDONTWRITEBYTECODE": "1", "HOME": work}
         env.update(case["env"])
+        for k, v in ((case.get("envs") or [{}, {}])[pi]).items():
+            if k not in ("PYTHONHASHSEED", "HOME", "TMPDIR"):
+                env[k] = v
         if case.get("tzs"):
             env["TZ"] = case["tzs"][pi]
         p = subprocess.run([sys.executable, "-W", "ignore", "-c",
